@@ -104,13 +104,17 @@ def make_actor(state: ActorState, actor_name: str, *, with_msg_dep=False, deps=N
 
     if with_msg_dep:
 
-        async def actor(jid: str, msg: r.MessageDependency):
+        async def actor(jid, msg):
             return await run_body(jid, msg)
 
+        # real objects, not strings (this module uses postponed evaluation of annotations)
+        actor.__annotations__ = {"jid": str, "msg": r.MessageDependency}
     else:
 
-        async def actor(jid: str):
+        async def actor(jid):
             return await run_body(jid)
+
+        actor.__annotations__ = {"jid": str}
 
     actor.__name__ = actor_name
     actor.__qualname__ = actor_name
